@@ -14,6 +14,7 @@ import OFV.Proofs.C11Num
 import OFV.Proofs.C11Layers
 import OFV.Proofs.C11Step
 import OFV.Proofs.C11Sweep
+import OFV.Proofs.C11Left
 
 namespace OFV.C11
 open OFV OFV.Model.C11
@@ -424,6 +425,56 @@ theorem givens_sweep_annihilates_upper_part (tol : Rat) (htol : 0 < tol) (ai : B
   rcases givens_upper_triangle_covered m n i j hm hi hij hjn with ⟨hl, _⟩ | ⟨_, k, hk, hmem⟩
   · exact hc i j hl
   · exact hz i j k (by omega) hmem
+
+/-- the left-unitary stage of `givens_decomposition` (rotations of rows `l, l+1`, column by column from the
+right) zeroes the whole corner `j - i > n - m`, in the exact regime (`LeftExact` follows the run) -/
+theorem givens_left_stage_zeroes_corner (tol : Rat) (htol : 0 < tol) (m n : Nat) (hmn : m ≤ n) (Q V M V' : Mat)
+    (h : leftStage tol (givensLeft m n) Q V = .ok (M, V')) (hex : LeftExact tol (givensLeft m n) Q)
+    (hQ : Rect Q m n) : Rect M m n ∧ ∀ i j, (i, j) ∈ givensLeft m n → M.get i j = 0 :=
+  leftStage_zeroes_corner tol htol m n hmn Q V M V' h hex hQ
+
+/-- **`givens_decomposition`, `m < n`, both stages** (the Model function the driver runs is exactly their
+composition, see `givens_decomposition_is_two_stages`): in the exact regime the final matrix has every
+entry above the diagonal equal to zero, i.e. it is `(L | 0)` with `L` lower triangular `m × m`; with
+orthonormal rows `L` is then diagonal of unit modulus (that last linear-algebra step is NOT formalised). -/
+theorem givens_decomposition_annihilates_upper_part (tol : Rat) (htol : 0 < tol) (ai : Bool) (m n : Nat)
+    (hm : m < n) (Q V0 M V : Mat) (ls : List (List Rot)) (M' : Mat) (hQ : Rect Q m n)
+    (h1 : leftStage tol (givensLeft m n) Q V0 = .ok (M, V)) (hex1 : LeftExact tol (givensLeft m n) Q)
+    (h2 : colSweep tol (givensLayer m n) ai (List.range (givensDepth n)) M = .ok (ls, M'))
+    (hex2 : SweepExact tol ai (givensLayer m n) (List.range (givensDepth n)) M) :
+    Rect M' m n ∧ ∀ i j, i < m → i < j → j < n → M'.get i j = 0 := by
+  obtain ⟨hR, hc⟩ := leftStage_zeroes_corner tol htol m n (by omega) Q V0 M V h1 hex1 hQ
+  exact givens_sweep_annihilates_upper_part tol htol ai m n hm M ls M' hR hc h2 hex2
+
+/-- `decompGivens` (what the driver executes for `givens_decomposition`) is the composition of the two stages
+and returns the diagonal of the final matrix -/
+theorem givens_decomposition_is_two_stages (tol : Rat) (Q : Mat) (n : Nat) (ai : Bool) (out : GivensOut)
+    (hm : Q.length < n) (h : decompGivens tol Q n ai = .ok out) :
+    ∃ M V ls M', leftStage tol (givensLeft Q.length n) Q (Mat.identity Q.length) = .ok (M, V) ∧
+      colSweep tol (givensLayer Q.length n) ai (List.range (givensDepth n)) M = .ok (ls, M') ∧
+      out.layers = ls ∧ out.left = V ∧ out.diag = diagOf M' Q.length 0 := by
+  unfold decompGivens at h
+  simp only at h
+  rw [if_neg (by omega)] at h
+  cases hL : leftStage tol (givensLeft Q.length n) Q (Mat.identity Q.length) with
+  | error e => simp [hL, bind, Except.bind] at h
+  | ok t =>
+    obtain ⟨M, V⟩ := t
+    simp only [hL, bind, Except.bind] at h
+    rw [if_neg (by omega)] at h
+    cases hS : colSweep tol (givensLayer Q.length n) ai (List.range (givensDepth n)) M with
+    | error e => simp [hS] at h
+    | ok t2 =>
+      obtain ⟨ls, M'⟩ := t2
+      simp only [hS] at h
+      injection h with h; subst h
+      exact ⟨M, V, ls, M', rfl, hS, rfl, rfl, rfl⟩
+
+-- non-vacuity: a 2 × 3 isometry whose left stage performs one row rotation
+example : (leftStage (1/100000000) (givensLeft 2 3) [[0, ⟨3/5, 0⟩, ⟨4/5, 0⟩], [0, ⟨-4/5, 0⟩, ⟨3/5, 0⟩]]
+    (Mat.identity 2)).toOption.map (fun r => r.1) = some [[0, 1, 0], [0, 0, 1]] := by decide +kernel
+example : StepExactL (1/100000000) [[0, ⟨3/5, 0⟩, ⟨4/5, 0⟩], [0, ⟨-4/5, 0⟩, ⟨3/5, 0⟩]] 0 2 := by
+  unfold StepExactL; decide +kernel
 
 -- non-vacuity: a 1 × 2 isometry (3/5, 4/5): the sweep returns (1, 0); the corner is empty
 example : (colSweep (1/100000000) (givensLayer 1 2) false (List.range (givensDepth 2))
